@@ -20,14 +20,16 @@ def asBool : Sexp → Bool
 
 /-- `(uc (code isDigit isWord (upper code…)) …)` -/
 def ucOf (rows : List Sexp) : UC :=
-  let tbl : List (Nat × Bool × Bool × List Char) := rows.filterMap fun r =>
+  let tbl : List (Nat × Bool × Bool × List Char × Nat) := rows.filterMap fun r =>
     match r with
-    | .list [.int c, d, w, .list up] => some (c.toNat, asBool d, asBool w, (up.filterMap asNat?).map Char.ofNat)
+    | .list [.int c, d, w, .list up, .int dv] => some (c.toNat, asBool d, asBool w, (up.filterMap asNat?).map Char.ofNat, dv.toNat)
+    | .list [.int c, d, w, .list up] => some (c.toNat, asBool d, asBool w, (up.filterMap asNat?).map Char.ofNat, 0)
     | _ => none
   let look (c : Char) := tbl.find? (fun e => e.1 == c.toNat)
   { digit := fun c => match look c with | some e => e.2.1 | none => false
     word := fun c => match look c with | some e => e.2.2.1 | none => false
-    upperOf := fun c => match look c with | some e => e.2.2.2 | none => [c] }
+    upperOf := fun c => match look c with | some e => e.2.2.2.1 | none => [c]
+    digitOf := fun c => match look c with | some e => e.2.2.2.2 | none => 0 }
 
 def stmtSexp : Stmt → Sexp
   | .createTable k attrs => .list [.sym "table", txt k, .list (attrs.map fun a => .list [txt a.1, txt a.2])]
